@@ -267,6 +267,44 @@ def str_const(s):
     return z3.Const("str:%s" % s, sort_of(TStr))
 
 
+def has_list(ty):
+    if isinstance(ty, TList):
+        return True
+    if isinstance(ty, TDict):
+        return has_list(ty.v)
+    if isinstance(ty, TOpt):
+        return has_list(ty.elem)
+    if isinstance(ty, TTuple):
+        return any(has_list(e) for e in ty.elems)
+    return False
+
+
+def wf_term(ty, t):
+    """Well-formedness of a symbolic value: list lengths are non-negative (at any depth)."""
+    if isinstance(ty, TList):
+        fs = [l_len(t) >= 0]
+        if has_list(ty.elem):
+            j = z3.Int(fresh_name("wj"))
+            fs.append(z3.ForAll([j], z3.And(*wf_term(ty.elem, l_at(t, j))), patterns=[l_at(t, j)]))
+        return fs
+    if isinstance(ty, TDict) and has_list(ty.v):
+        k = z3.Const(fresh_name("wk"), sort_of(ty.k))
+        return [z3.ForAll([k], z3.And(*wf_term(ty.v, z3.Select(d_val(t), k))), patterns=[z3.Select(d_val(t), k)])]
+    if isinstance(ty, TOpt) and has_list(ty.elem):
+        return [z3.Implies(o_is_some(t), z3.And(*wf_term(ty.elem, o_val(t))))]
+    if isinstance(ty, TTuple) and has_list(ty):
+        return [f for i, e in enumerate(ty.elems) for f in wf_term(e, t_get(t, i))]
+    return []
+
+
+def wf(val):
+    if isinstance(val.ty, TObj):
+        return [f for v in val.t.values() for f in wf(v)]
+    if val.t is None:
+        return []
+    return wf_term(val.ty, val.t)
+
+
 class Unsupported(Exception):
     """The construct is outside the accepted subset: the function is undecided."""
 
